@@ -277,9 +277,15 @@ class ServerSet(object):
     ChildrenWatch(self._zk, self._zk_path, self._on_set_changed)
 
   def _send_all_removed(self):
-    for k in self._members.keys():
+    # The watched path is gone: forget the children seen under it, so that
+    # members re-created under a new path with the same names are announced.
+    self._nodes = set()
+    for k in list(self._members.keys()):
       member = self._members.pop(k)
-      self._on_leave(member)
+      try:
+        self._on_leave(member)
+      except Exception:
+        self._log.exception('Error in OnLeave callback.')
 
   def _notification_worker(self):
     """'Atomically' raise notifications for join / leave.
